@@ -1,10 +1,14 @@
 ﻿from nsl import Visitor
 
 
-def ValidateSwizzleMask(mask):
+def ValidateSwizzleMask(mask, componentCount=4):
     from .. import Utility, Errors
 
     if any([m not in "xyzwrgba" for m in mask]):
+        Errors.ERROR_INVALID_SWIZZLE_MASK.Raise()
+
+    # Every selector must name a component the vector actually has
+    if any(["xyzwrgba".index(m) % 4 >= componentCount for m in mask]):
         Errors.ERROR_INVALID_SWIZZLE_MASK.Raise()
 
     if Utility.ContainsAnyOf(mask, "xyzw") and Utility.ContainsAnyOf(
@@ -28,9 +32,21 @@ class ValidateSwizzleMaskVisitor(Visitor.DefaultVisitor):
 
         t = expr.GetParent().GetType()
 
-        with nsl.Errors.CompileExceptionToErrorHandler(self.errorHandler):
-            if t.IsPrimitive() and (t.IsVector() or t.IsScalar()):
-                ValidateSwizzleMask(expr.GetMember())
+        def OnError():
+            self.valid = False
+
+        with nsl.Errors.CompileExceptionToErrorHandler(
+            self.errorHandler, OnError
+        ):
+            if t.IsPrimitive() and t.IsVector():
+                ValidateSwizzleMask(
+                    expr.GetMember().GetName(), t.GetComponentCount()
+                )
+            elif t.IsPrimitive() and t.IsScalar():
+                ValidateSwizzleMask(expr.GetMember().GetName())
+
+        # The parent can be a swizzle itself
+        expr.AcceptVisitor(self)
 
 
 def GetPass():
